@@ -12,12 +12,12 @@ def loader_part(chk, res, rows):
     p = os.path.join(res["dir"], "load.jsonl")
     lrows = [json.loads(l) for l in open(p)] if os.path.exists(p) else []
     hist = [r for r in lrows if "ok" in r]
-    chk.cov["correspondences"]["K-load(load_migrations vs sort_plans)"] = {"cases": 2 * len(hist), "mismatches": res.get("load_bad")}
+    chk.cov["correspondences"]["K-load(load_migrations and load_migrations_from_dir vs sort_plans)"] = {"cases": 4 * len(hist), "mismatches": res.get("load_bad")}
     chk.cov["distribution"]["loader_histories"] = len(hist)
-    chk.cov["evaluations"] += 2 * len(hist)
-    bad = [r for r in hist if not r["ok"]]
+    chk.cov["evaluations"] += 4 * len(hist)
+    bad = [r for r in hist if not (r["ok"] and r.get("ok_macro", True))]
     for r in bad[:3]:
-        chk.violation(vflib.write_replay("C08", "oracle:loader-order", {"input": {"migration_plans": r["plans"]}, "loaded_versions": r["loaded"],
+        chk.violation(vflib.write_replay("C08", "oracle:loader-order", {"input": {"migration_plans": r["plans"]}, "loaded_versions": r["loaded"], "loaded_versions_macro_loader": r.get("loaded_macro"),
                                                                      "note": "the same migration files stored under different file names / creation orders were not replayed in ascending version order"}))
     if res.get("load_bad") and not bad:
         chk.violation(vflib.write_replay("C08", "correspondence:K-load", {"mismatches": res.get("load_bad")}), True)
